@@ -28,7 +28,8 @@ try:
                   'recorded}; filesystem in {absent, as recorded, mtime differs, only mode differs}; csum empty or not)',
                   'ALWAYS pseudo-file': 'present, may be a dependency'}
     chk.assumptions += depscheck.ASSUMPTIONS
-    depscheck.kernel_agreement(chk, N, E, goals=True)
+    from specs.dbmodel import S_MISSING
+    depscheck.kernel_agreement(chk, N, E, goals=True, world_kw={'always_stamps': (None, S_MISSING)})
     depscheck.validate_kernel(chk, rep, n=(60 if chk.thorough() else 24))
     orchestration.unlocked_reevaluates(chk)
     from specs import buildjob, buildworld
